@@ -5,6 +5,6 @@ VARIABLE k
 Init == k = 0
 Next == k < Len(Catalog) /\ k' = k + 1
 SameLength == Len(OrdCatalog) = Len(Catalog)
-DisjointSiblings == k > 0 => Disjoint(OrdCatalog[k], AllInst(Catalog[k].rules))
+DisjointSiblings == k > 0 => \A a \in DOMAIN OrdCatalog[k] : Disjoint(OrdCatalog[k][a], AllInst(Catalog[k].rules))
 EmitCase == k = 0 => PrintT(<<"ORDERS", ToJson(OrdCatalog)>>)
 =============================================================================
